@@ -25,6 +25,8 @@ def tasks(ctx, quick):
         how = hows[i % len(hows)]
         add({"kind": "natd", "compound": ["seq", [[c, [z, a, q]] for z, a, q, c in comp]], "how": how,
              "value": rng.choice([1.0, 0.5, 2.16, 7.87, 19.3, 0.001, rng.uniform(0.01, 25)])})
+        if i % 4 == 2:
+            items[-1]["T"] = rng.choice(["T2", "T2", "T1"])       # T2: a table whose owner changed its masses
     # densities after an in-place change of the composition
     for i in range(60 if quick else 600):
         add({"kind": "natd", "compound": ["seq", [[c, [z, a, q]] for z, a, q, c in compound()]], "how": ["iadd_density", "iadd_natural"][i % 2],
@@ -96,12 +98,15 @@ def tasks(ctx, quick):
             t.update(b=rng.uniform(1, 20), c=rng.uniform(1, 20), alpha=rng.uniform(60, 110), beta=rng.uniform(60, 110), gamma=rng.uniform(60, 110))
         if shape == 0 and i % 8 == 0:
             t.update(alpha=rng.choice([60.0, 90.0, 75.5]))
+        if (len(t) > 4 or shape == 0) and i % 2:
+            t["a_positional"] = True
         add(t)
         # any subset of the angles may be given: beta and gamma default to alpha, alpha to 90 degrees
         t2 = {"kind": "vol", "kind2": "lattice", "compound": ["dict", comp], "a": a, "b": rng.uniform(1, 20)}
         for nm in ("alpha", "beta", "gamma"):
             if rng.random() < 0.5:
                 t2[nm] = rng.choice([60.0, 75.0, 80.5, 95.0, 100.0, 110.0, 90.0])
+        t2["a_positional"] = bool(i % 3 == 0 and len(t2) > 5)
         add(t2)
     return items
 
